@@ -18,6 +18,12 @@ TRIPLE_HELPERS = {
     "mpc::mpc_compiler::get_node_shares": "single",
 }
 EXTRA = {"graphs::Node::add_annotation": [0], "graphs::Node::set_name": [0], "graphs::Node::set_as_output": [0]}
+# documented holders of whole protocol arguments (ordinal of the g.input call on its path -> parties), from the protocol's
+# own description; everything not listed is "convention depends on use" (inexact)
+INPUT_HOLDERS = {
+    "<mpc::mpc_truncate::TruncateMPC2K as custom_ops::CustomOperationBody>::instantiate":
+        {2: (frozenset((2,)), "k_2 is a PRF key that is held only by party 2 (doc comment of TruncateMPC2K)")},
+}
 
 
 def const_int(op, fl=None, b=None):
@@ -36,13 +42,98 @@ def const_int(op, fl=None, b=None):
 
 
 class Knowledge:
-    def __init__(self, facts, body):
+    def __init__(self, facts, body, parent=None, site=None, call_bb=None):
+        """parent/site/call_bb: for a closure body - the Knowledge of the function that creates it, the (bb, j) of the closure
+        aggregate (captures) and the block of the particular call whose arguments bind the closure's parameters"""
         self.facts = facts
         self.b = body
         self.fl = Flow(facts, body, EXTRA)
         self.memo = {}
         self.sends = {}   # nop block -> (sender, receiver) literals or None
+        self.parent, self.site, self.call_bb = parent, site, call_bb
+        self._closures = {}
         self._collect_sends()
+
+    # ------------------------------------------------------------------ closures
+    def closure_knowledge(self, cname, call_bb):
+        """Knowledge of local closure `cname` as called at block call_bb of this body"""
+        key = (cname, call_bb)
+        if key in self._closures:
+            return self._closures[key]
+        cb = self.facts.bodies.get(cname)
+        site = [(bb, j, rv) for bb, j, place, rv in self.b.assigns()
+                if rv[0] == "agg" and rv[1].get("k") == "closure" and rv[1].get("def") == cname]
+        kn = Knowledge(self.facts, cb, parent=self, site=site[0], call_bb=call_bb) if cb is not None and len(site) == 1 else None
+        self._closures[key] = kn
+        return kn
+
+    def _outer(self, o):
+        """(K, exact) of an origin of a closure body that refers to the creating function: a capture or a parameter"""
+        if self.parent is None:
+            return frozenset(), False
+        p = self.parent
+        if o[0] == "upvar":
+            sb, sj, srv = self.site
+            if o[1] is None or o[1] >= len(srv[2]):
+                return frozenset(), False
+            return p.of_operand(srv[2][o[1]], (sb, sj))
+        if o[0] == "param" and o[1] >= 2 and self.call_bb is not None:
+            t = p.b.term(self.call_bb)
+            if len(t["args"]) < 2 or t["args"][1][0] == "k":
+                return frozenset(), False
+            tl = t["args"][1][1][0]
+            for di in p.fl.defs_of.get(tl, []):
+                _, db, dj = p.fl.defs[di]
+                if db >= 0 and dj is not None:
+                    rv = p.b.stmts(db)[dj][2]
+                    if rv[0] == "agg" and rv[1].get("k") == "tuple" and o[1] - 2 < len(rv[2]):
+                        return p.of_operand(rv[2][o[1] - 2], (db, dj))
+        return frozenset(), False
+
+    def _tuple_field(self, op):
+        """index of the tuple field through which `op` reads a (Node, Node, ..) result, following copies backwards"""
+        if op[0] == "k":
+            return None
+        l, projs = op[1][0], [x for x in op[1][1:] if x != "*"]
+        for _ in range(12):
+            fs = [x for x in projs if str(x).startswith("f")]
+            if fs:
+                try:
+                    return int(str(fs[-1])[1:].split(":")[0])
+                except ValueError:
+                    return None
+            ds = self.fl.defs_of.get(l, [])
+            if len(ds) != 1:
+                return None
+            _, db, dj = self.fl.defs[ds[0]]
+            if db < 0 or dj is None:
+                return None
+            rv = self.b.stmts(db)[dj][2]
+            if rv[0] == "use" and rv[1][0] != "k":
+                l, projs = rv[1][1][0], [x for x in rv[1][1][1:] if x != "*"]
+                continue
+            if rv[0] in ("ref",):
+                l, projs = rv[2][0], [x for x in rv[2][1:] if x != "*"]
+                continue
+            return None
+        return None
+
+    def returned_components(self):
+        """operands of the tuple returned as Ok((a, b, ..)) by this (closure) body: [(operand, at)] or None"""
+        b, fl = self.b, self.fl
+        found = None
+        for bb, j, place, rv in b.assigns():
+            if place == [0] and rv[0] == "agg" and rv[1].get("vn") == "Ok" and rv[2] and rv[2][0][0] != "k" and not b.is_cleanup(bb):
+                tl = rv[2][0][1][0]
+                for di in fl.defs_of.get(tl, []):
+                    _, db, dj = fl.defs[di]
+                    if db >= 0 and dj is not None:
+                        r2 = b.stmts(db)[dj][2]
+                        if r2[0] == "agg" and r2[1].get("k") == "tuple":
+                            if found is not None:
+                                return None
+                            found = [(o_, (db, dj)) for o_ in r2[2]]
+        return found
 
     def _collect_sends(self):
         b, fl = self.b, self.fl
@@ -69,7 +160,16 @@ class Knowledge:
         ip = self.fl._index_path(op) if op[0] != "k" else None
         for o in ors:
             if o[0] == "call":
-                k2, e2 = self.of_call(o[1], stack)
+                cb_ = self.facts.bodies.get(o[2])
+                if cb_ is not None and cb_.kind == "closure":
+                    k2, e2 = frozenset(), False
+                    ck = self.closure_knowledge(o[2], o[1])
+                    fi = self._tuple_field(op)
+                    comps = ck.returned_components() if ck is not None else None
+                    if comps and fi is not None and fi < len(comps):
+                        k2, e2 = ck.of_operand(comps[fi][0], comps[fi][1])
+                else:
+                    k2, e2 = self.of_call(o[1], stack)
                 if k2 == "triple":
                     j = ip[1][-1] if ip and ip[1] else None
                     if j is None or not (0 <= j <= 2):
@@ -80,6 +180,8 @@ class Knowledge:
                         k2, e2 = frozenset((j,)), True
             elif o[0] in ("const",):
                 continue
+            elif o[0] in ("upvar", "param") and self.parent is not None:
+                k2, e2 = self._outer(o)
             else:
                 k2, e2 = frozenset(), False   # parameter / upvar / unknown: owner not known here
             seen_any = True
@@ -104,6 +206,13 @@ class Knowledge:
             res = (ALL, True)
         elif cn in ("graphs::Graph::input",):
             res = (frozenset(), False)            # whole argument of the protocol: convention depends on the use
+            conv = INPUT_HOLDERS.get(b.root or b.id)
+            if conv:
+                from . import cfg as C
+                ordinal = sum(1 for b2, t2 in b.calls() if callee_name(t2) == cn and b2 != bb and not b.is_cleanup(b2)
+                              and C.dominates(b, b2, bb))
+                if ordinal in conv:
+                    res = (conv[ordinal][0], True)
         elif short == "tuple_get" and cn.startswith("graphs::"):
             idx = const_int(t["args"][-1], fl, b)
             src = self.node_args(t)
